@@ -657,6 +657,14 @@ pub fn run(tier: Tier) -> i32 {
             ("variable-assigned-after-the-only-call", ".macro m_q\nldi r16, v_q\n.endm\nm_q\n.set v_q = 2\n", None),
             ("alias-defined-in-the-body", ".macro m_q\n.def a_q = r17\n.endm\nm_q\nldi a_q, 1\n", Some(&[0x11, 0xe0])),
             ("alias-passed-as-argument-and-rebound", ".def a_q = r16\n.macro m_q\nldi @0, 1\n.endm\nm_q a_q\n.undef a_q\n.def a_q = r17\nm_q a_q\n", Some(&[0x01, 0xe0, 0x11, 0xe0])),
+            // one name several times in one operand, names that share a definition
+            ("one-name-several-times-in-one-operand", ".equ base_q = 2\n.equ step_q = base_q + 1\n.equ other_q = base_q * 2\nldi r16, step_q * step_q\nldi r17, (STEP_Q << 4) | step_q\nldi r18, step_q + other_q\n.dw step_q, Step_Q\n", Some(&[0x09, 0xe0, 0x13, 0xe3, 0x27, 0xe0, 0x03, 0x00, 0x03, 0x00])),
+            ("one-variable-several-times-in-one-operand", ".set v_q = 3\nldi r16, v_q * V_q + v_q\n.set v_q = 1\nldi r17, v_q + v_q + v_q\n", Some(&[0x0c, 0xe0, 0x13, 0xe0])),
+            // a label on a directive line that is itself skipped text defines nothing
+            ("label-on-a-nested-endif-inside-a-skipped-arm", ".if 0\n.if 1\nnop\ninner_q: .endif\n.endif\nrjmp inner_q\n", None),
+            ("label-on-a-nested-else-inside-a-skipped-arm-and-the-same-name-outside", ".if 0\n.if 1\nnop\ndup_q: .else\nnop\n.endif\n.endif\ndup_q: nop\nrjmp dup_q\n", Some(&[0x00, 0x00, 0xfe, 0xcf])),
+            // a feature flag is another kind of name, told apart by letter case: it does not capture a label
+            ("flag-that-differs-from-a-label-in-case-only", ".define UART_Q\n#define Tx_Q\nnop\nuart_q: nop\ntx_q: rjmp uart_q\n.dw uart_q, tx_q\n", Some(&[0x00, 0x00, 0x00, 0x00, 0xfe, 0xcf, 0x01, 0x00, 0x02, 0x00])),
             ("label-in-the-body-used-outside", ".macro m_q\nin_l: nop\n.endm\nnop\nm_q\nrjmp in_l\n", Some(&[0x00, 0x00, 0x00, 0x00, 0xfe, 0xcf])),
         ];
         for (name, src, want) in progs.iter() {
